@@ -9,6 +9,7 @@ import Anko.Gen.Walker
 import Anko.Model.Codec
 import Anko.Model.BinOp
 import Anko.Model.FloatImpl
+import Anko.Model.Cli
 
 open Anko
 
@@ -58,8 +59,21 @@ def showOpRes : OpRes → String
   | .err m => "err " ++ m
   | .unsupported => "unsupported"
 
+def handleCli (args : List Sexp) : String :=
+  match args with
+  | [.atom s, .atom r] =>
+    let sup : Option Supply := match s with
+      | "dashE" => some .dashE | "file1" => some (.file true) | "file0" => some (.file false) | _ => none
+    let res : Option ExecRes := match r with
+      | "ok" => some .ok | "parseErr" => some .parseErr | "runErr" => some .runErr | _ => none
+    match sup, res with
+    | some a, some b => let o := cli a b; s!"exit={o.exit} diag={o.diagLines} executed={o.executed}"
+    | _, _ => "bad-args"
+  | _ => "bad-args"
+
 def handleOps (cmd : String) (args : List Sexp) : String :=
   match cmd, args with
+  | "cli", args => handleCli args
   | "binop", [.atom op, a, b] =>
     (match decodeRV a, decodeRV b with
      | some x, some y => showOpRes (binop op x y)
